@@ -55,7 +55,7 @@ pub fn strategy() -> BoxedStrategy<Choice> {
     2 => (0u8..6).prop_map(Line::Comment),
     2 => Just(Line::Blank),
     1 => (0u8..4).prop_map(Line::Long),
-    2 => (0u8..6).prop_map(Line::Other),
+    2 => (0u8..8).prop_map(Line::Other),
   ];
   let file = (prop::collection::vec(line, 0..14), any::<bool>(), any::<bool>(), 0u8..4).prop_map(|(lines, crlf, trailing_newline, indent)| FileC {
     lines,
@@ -65,7 +65,7 @@ pub fn strategy() -> BoxedStrategy<Choice> {
   });
   (
     prop_oneof![3 => prop::collection::vec(file.clone(), 1..5), 1 => prop::collection::vec(file, 5..30)],
-    0u8..8,
+    0u8..10,
     0u16..6,
     0u16..6,
     0u8..4,
@@ -104,7 +104,20 @@ fn render(f: &FileC) -> String {
         let body = if k % 2 == 0 { "x".repeat(n) } else { "é".repeat(n / 2) };
         out.push(format!("{pad}let s = \"{body}\"; foo(9);"));
       }
-      Line::Other(o) => out.push(format!("{pad}{}", ["let é = 1;", "bar();", "if (a) { foo(a) }", "x = [foo(1), foo(2)];", "return;", "baz(foo(bar(2)));"][*o as usize % 6])),
+      Line::Other(o) => out.push(format!(
+        "{pad}{}",
+        [
+          "let é = 1;",
+          "bar();",
+          "if (a) { foo(a) }",
+          "x = [foo(1), foo(2)];",
+          "return;",
+          "baz(foo(bar(2)));",
+          // a bare CR is not a line break for positions: columns keep counting from the last LF
+          "foo(1);\rfoo(a); // é\r tail",
+          "let t = `a\r${foo(2)} é`; foo(\"x\");",
+        ][*o as usize % 8]
+      )),
     }
   }
   let mut s = out.join(nl);
@@ -149,7 +162,10 @@ pub fn interpret(ch: &Choice, _st: &mut Stats) -> Option<Case> {
       None,
       Some("id: r2\nlanguage: JavaScript\nseverity: warning\nrule:\n  kind: call_expression\n  has: {kind: arguments, has: {kind: string}}\nfix:\n  template: ''\n  expandEnd: {regex: '^;$'}\n".to_string()),
     ),
-    _ => (Some("\"$S\"".to_string()), None, None),
+    7 => (Some("\"$S\"".to_string()), None, None),
+    // matches that include the CR of a CRLF line ending (comments run to the end of the line)
+    8 => (None, None, Some("id: r3\nlanguage: JavaScript\nmessage: comment\nrule:\n  kind: comment\n".to_string())),
+    _ => (Some("`$$$T`".to_string()), None, None),
   };
   Some(Case {
     files,
@@ -442,7 +458,7 @@ pub fn run(cfg: &RunCfg) -> i32 {
     return crate::replay_main::<Case>(cfg, path, check);
   }
   crate::replay_known::<Case>(&mut report, &known, check);
-  let total = cfg.budget(1_500, 30_000);
+  let total = cfg.budget(5_000, 60_000);
   let o = drive(cfg, "cli-output", total, &known, strategy, interpret, check);
   report.absorb("cli-output", o);
   cli::cleanup_work_root();
